@@ -4,6 +4,7 @@ import (
 	"fmt"
 	"go/token"
 	"go/types"
+	"regexp"
 	"strings"
 
 	"golang.org/x/tools/go/ssa"
@@ -14,9 +15,9 @@ func init() {
 		ID:    "C04",
 		Title: "identity pinning matches only the signing certificate's own subject",
 		Run:   runC04,
-		Explain: "(a) the identity verifier (the verifier function that calls the subset function of internal/pkix) reads its certificate slice only at constant index 0; " +
-			"(b) its success exits are the wildcard membership or a true subset test; identity parse error, missing separator, empty value, leaf-subject parse error and 'no x509 identity' are fail-closed; " +
-			"(c) argument order: first the parsed identity (element of the list built from the identities parameter), second the parsed subject of certs[0]; " +
+		Explain: "(a) the identity verifier (the verifier function with an identity list and a certificate chain parameter from which the subset function of internal/pkix is reached) reads its certificate slice only at constant index 0, in itself and in every module function it hands the slice to; " +
+			"(b) its success exits are the wildcard membership or a true subset test; identity parse error, missing separator, empty value, leaf-subject parse error and 'no x509 identity' are fail-closed (a gate may sit in a module helper: the helper's success edge then is the gate); " +
+			"(c) argument order at every subset test in the verifier's call tree: first a parsed x509.subject identity (every value that can reach the list is ParseDN(value part of an identity of the identities parameter), parsed under the fact that its kind is x509.subject), second the parsed subject of certs[0]; " +
 			"(d) the subset function (by type func(map,map) bool) ranges over its first argument, calls nothing, and every completed iteration passes a comma-ok lookup in the second map and value equality; true is returned only after the loop; " +
 			"(e) the DN parser: '=#' and parse errors fail, multi-valued RDN fails, S is aliased to ST, duplicates fail, each of C, ST, O must be present.",
 		NotCov:  "RFC 4514 parsing itself (go-ldap ParseDN); that the native check is skipped only under the plugin capability is rule C02/routing/identity.",
@@ -58,22 +59,60 @@ func runC04(c *Ctx) {
 	}
 	c04Subset(c, S)
 	c04Parser(c, P)
-	// the identity verifier: function of package verifier calling S
-	var V *ssa.Function
-	var sCall *ssa.Call
+	// the identity verifier, by role: the function of package verifier that is handed the identity list ([]string) and the
+	// certificate chain and from which the subset test is reached through static module calls. The test itself may sit in
+	// a helper; when such functions are nested, the innermost one that still has both parameters is the verifier.
+	var cands []*ssa.Function
 	for _, fn := range w.FuncsOfPkg("verifier") {
-		for _, ci := range allCalls(fn) {
-			if call, ok := ci.(*ssa.Call); ok && staticCallee(call) == S {
-				V, sCall = fn, call
+		if fn.Parent() != nil || fn.Blocks == nil {
+			continue
+		}
+		if ce, id := c04Params(fn); ce == nil || id == nil {
+			continue
+		}
+		for _, g := range w.moduleCallees(fn) {
+			if g == S {
+				cands = append(cands, fn)
+				break
 			}
 		}
 	}
-	if V == nil {
-		c.Unk("verifier/anchor", "anchor: the verifier function that applies the subset test", "-", "no call of "+fnName(S)+" in package verifier")
+	var Vs []*ssa.Function
+	for _, fn := range cands {
+		inner := true
+		for _, g := range w.moduleCallees(fn) {
+			for _, o := range cands {
+				if g == o && o != fn {
+					inner = false
+				}
+			}
+		}
+		if inner {
+			Vs = append(Vs, fn)
+		}
+	}
+	if len(Vs) == 0 {
+		c.Unk("verifier/anchor", "anchor: the verifier function that is handed the identities and the certificate chain and applies the subset test", "-", "no function of package verifier with a []string and a []*x509.Certificate parameter reaches "+fnName(S))
 		return
 	}
-	c04Verifier(c, V, sCall, S, P)
+	for _, V := range Vs {
+		c04Verifier(c, V, S, P)
+	}
 	c.MinCount("", 14, "identity obligations")
+}
+
+// c04Params: the certificate chain and the identity list parameter of a function (by type).
+func c04Params(fn *ssa.Function) (certs, idents *ssa.Parameter) {
+	for _, p := range fn.Params {
+		ts := p.Type().String()
+		if strings.Contains(ts, "[]*crypto/x509.Certificate") {
+			certs = p
+		}
+		if ts == "[]string" {
+			idents = p
+		}
+	}
+	return
 }
 
 func c04Subset(c *Ctx, S *ssa.Function) {
@@ -168,7 +207,8 @@ func c04Parser(c *Ctx, P *ssa.Function) {
 		}
 	}
 	c.Check(okFresh, "parser/result-is-fresh-map", "the parse result is a map made in the parser (order and spacing of the input cannot reach the comparison)", w.FnPos(P), "result is not a fresh map")
-	// loops over RDNs and attributes
+	// loops over RDNs and attributes; the loop over the list of mandatory attribute types is the one that ranges over a
+	// local literal (`[]string{...}` held in a variable or not, or an array literal)
 	var rdnLoop, attrLoop, mandLoop *sliceLoop
 	for _, sl := range sliceLoops(P) {
 		sl := sl
@@ -178,13 +218,23 @@ func c04Parser(c *Ctx, P *ssa.Function) {
 			rdnLoop = &sl
 		case strings.HasSuffix(d, ".Attributes"):
 			attrLoop = &sl
-		case strings.Contains(d, "slicelit") || strings.HasPrefix(d, "{") || strings.HasPrefix(d, "global:"):
+		case c04LitAlloc(sl.X) != nil:
 			mandLoop = &sl
 		}
 	}
 	if rdnLoop == nil || attrLoop == nil {
 		c.Unk("parser/loops", "anchor: loops over RDNs and their attributes", w.FnPos(P), "not recognised")
 		return
+	}
+	// every RDN and every attribute is read: a parse that succeeds left both loops by exhaustion (an attribute of the
+	// identity that is never read is an attribute the subject is never asked for)
+	{
+		wit := c04LeavesEarly(fi, rdnLoop)
+		if wit == nil {
+			wit = c04LeavesEarly(fi, attrLoop)
+		}
+		c.Evals += 2
+		c.Check(wit == nil, "parser/every-attribute-read", "a successful parse has iterated over all RDNs and all their attributes", w.InstrPos(blockTerm(rdnLoop.Header)), "the parse can succeed after leaving a loop before its end", wit...)
 	}
 	// multi-valued RDN: entering the attribute loop requires len(Attributes) <= 1
 	{
@@ -207,6 +257,7 @@ func c04Parser(c *Ctx, P *ssa.Function) {
 	}
 	if mu == nil {
 		c.Bad("parser/duplicate", "per-attribute gate: an attribute is stored only if no value was stored for its type before; otherwise the parse fails", w.FnPos(P), "no map store found")
+		c.Bad("parser/alias-S-ST", "the attribute type S is rewritten to ST before it is stored", w.FnPos(P), "no map store found")
 	} else {
 		labels, ok := fi.mustPassBetween([]int{attrLoop.Body.Index}, map[int]bool{attrLoop.Header.Index: true})
 		_, h := hasLabel(labels, "EQ(makemap:map[string]string[", `,const:"")`)
@@ -221,141 +272,276 @@ func c04Parser(c *Ctx, P *ssa.Function) {
 		c.Evals += 2
 		c.Check(ok && h && h2, "parser/duplicate", "per-attribute gate: an attribute is stored only if no value was stored for its type before; otherwise the parse fails", w.InstrPos(mu),
 			"a duplicate attribute does not fail the parse; per-iteration facts: "+summarizeLabels(labels, 6))
-		// value stored is the attribute's Value, key its Type
-		c.Check(strings.HasSuffix(desc(mu.Value), ".Value") && strings.Contains(desc(mu.Key), "Type"), "parser/stores-type-value", "the map entry is attribute.Type -> attribute.Value", w.InstrPos(mu), desc(mu.Key)+" -> "+desc(mu.Value))
-	}
-	// alias S -> ST
-	{
-		ok := false
-		for _, b := range P.Blocks {
-			for _, in := range b.Instrs {
-				st, isSt := in.(*ssa.Store)
-				if !isSt {
-					continue
-				}
-				if k, isK := st.Val.(*ssa.Const); isK && constString(k) == `"ST"` {
-					if _, h := hasLabel(fi.GuardsOf(st), "EQ(", `.Type,const:"S")`); h {
-						ok = true
-					}
-				}
+		// value stored is the attribute's Value, key its Type (of the same attribute of this iteration), the key possibly
+		// after the S -> ST aliasing
+		keyT, aliasOK, aliasWhy := c04AliasedKey(fi, attrLoop, mu)
+		attr := strings.TrimSuffix(desc(mu.Value), ".Value")
+		idx := "?"
+		if iff, ok := blockTerm(attrLoop.Header).(*ssa.If); ok {
+			if bo, ok := iff.Cond.(*ssa.BinOp); ok {
+				idx = descIndex(bo.X)
 			}
 		}
+		c.Check(strings.HasSuffix(desc(mu.Value), ".Value") && strings.HasSuffix(attr, ".Attributes["+idx+"]") && keyT != nil && desc(keyT) == attr+".Type",
+			"parser/stores-type-value", "the map entry is attribute.Type -> attribute.Value", w.InstrPos(mu), desc(mu.Key)+" -> "+desc(mu.Value))
 		c.Evals++
-		c.Check(ok, "parser/alias-S-ST", "the attribute type S is rewritten to ST before it is stored", w.FnPos(P), "no store of \"ST\" guarded by Type == \"S\"")
+		c.Check(aliasOK, "parser/alias-S-ST", "the attribute type S is rewritten to ST before it is stored", w.InstrPos(mu), aliasWhy)
 	}
 	// mandatory fields
 	if mandLoop == nil {
 		c.Bad("parser/mandatory", "each of C, ST, O must have a non-empty value", w.FnPos(P), "no loop over the mandatory attribute list")
 	} else {
+		// the gate of an iteration: the result map holds a non-empty value under the element of the list
+		lit := c04LitAlloc(mandLoop.X)
+		el := desc(mandLoop.X) + "["
 		labels, ok := fi.mustPassBetween([]int{mandLoop.Body.Index}, map[int]bool{mandLoop.Header.Index: true})
-		_, h := hasLabel(labels, "NE(makemap:map[string]string[", `,const:"")`)
+		_, h := hasLabel(labels, "NE(makemap:map[string]string["+el, `,const:"")`)
 		if !h {
-			_, h = hasLabel(labels, "T(ok(makemap:map[string]string[")
+			_, h = hasLabel(labels, "T(ok(makemap:map[string]string["+el)
 		}
-		// the list contains C, ST, O
+		// the list contains C, ST, O: the elements of that literal, all constants, nothing else written into it
 		have := map[string]bool{}
-		for _, b := range P.Blocks {
-			for _, in := range b.Instrs {
-				if st, isSt := in.(*ssa.Store); isSt {
-					if ia, isIA := st.Addr.(*ssa.IndexAddr); isIA {
-						if al, isAl := ia.X.(*ssa.Alloc); isAl && strings.Contains(al.Comment, "slicelit") {
-							if k, isK := st.Val.(*ssa.Const); isK {
-								have[constString(k)] = true
-							}
-						}
-					}
+		if els := orderedLitElems(lit); els != nil && c04LitConstOnly(lit) {
+			for _, e := range els {
+				if k, isK := e.(*ssa.Const); isK {
+					have[constString(k)] = true
 				}
 			}
 		}
-		// success exits pass through the mandatory loop
+		// success exits pass through the mandatory loop, and leave it only when the list is exhausted (not by a break
+		// that skips the rest of the list)
 		cut := map[edgeKey]bool{}
 		cutInto(fi, mandLoop.Header, cut)
 		wit := fi.successWitness(Mode{Kind: mErr}, entryState(), cut)
+		if wit == nil {
+			wit = c04LeavesEarly(fi, mandLoop)
+		}
 		c.Evals += 2
 		c.Check(ok && h && have[`"C"`] && have[`"ST"`] && have[`"O"`] && wit == nil, "parser/mandatory", "each of C, ST, O must have a non-empty value on every success path", w.InstrPos(blockTerm(mandLoop.Header)),
 			fmt.Sprintf("list=%v gate=%v bypass=%v", sortedKeys(have), h, wit != nil), wit...)
 	}
 }
 
-func c04Verifier(c *Ctx, V *ssa.Function, sCall *ssa.Call, S, P *ssa.Function) {
-	w := c.W
-	fi := w.Info(V)
-	c.SeenFn(V.String())
-	// (a) certificate slice parameter read only at index 0
-	var certs *ssa.Parameter
-	var idents *ssa.Parameter
-	for _, p := range V.Params {
-		ts := p.Type().String()
-		if strings.Contains(ts, "[]*crypto/x509.Certificate") {
-			certs = p
+// c04AliasedKey decides the key of the attribute store: which value T it is when it is not the alias, and whether
+// "key = ST if T is S, else T" holds. Two forms:
+//
+//	in place:  `if a.Type == "S" { a.Type = "ST" }; m[a.Type] = ...` — the key is a load of the attribute's Type field; every
+//	           path of the iteration to the store passes Type != "S" or the block that stores "ST" into that field
+//	           (guarded by Type == "S");
+//	local:     `t := a.Type; if t == "S" { t = "ST" }; m[t] = ...` — the key is a phi whose "ST" edges are dominated by
+//	           T == "S" and whose T edges by T != "S" (same decision, the ldap attribute is left alone).
+//
+// In both the map key is "ST" exactly when the attribute type is "S" and the attribute type otherwise, which is the
+// clause (S is an alias of ST); T itself is checked against the attribute by the caller.
+func c04AliasedKey(fi *FnInfo, attrLoop *sliceLoop, mu *ssa.MapUpdate) (ssa.Value, bool, string) {
+	isST := func(v ssa.Value) bool {
+		k, ok := v.(*ssa.Const)
+		return ok && constString(k) == `"ST"`
+	}
+	if phi, ok := mu.Key.(*ssa.Phi); ok {
+		var T ssa.Value
+		for _, e := range phi.Edges {
+			if !isST(e) {
+				if T != nil && T != e {
+					return nil, false, "the key merges more than one value besides \"ST\""
+				}
+				T = e
+			}
 		}
-		if ts == "[]string" {
-			idents = p
+		if T == nil {
+			return nil, false, "the key is always \"ST\""
+		}
+		nST := 0
+		for i, e := range phi.Edges {
+			facts := c04EdgeFacts(phi.Block().Preds[i], phi.Block())
+			if isST(e) {
+				nST++
+				if !facts["EQ("+desc(T)+`,const:"S")`] {
+					return T, false, "the key becomes \"ST\" on an edge that is not under type == \"S\""
+				}
+			} else if !facts["NE("+desc(T)+`,const:"S")`] {
+				return T, false, "the key stays the attribute type on an edge that is not under type != \"S\" (S is stored as S)"
+			}
+		}
+		return T, nST > 0, "no edge sets the key to \"ST\""
+	}
+	// in place
+	T := mu.Key
+	td := desc(T)
+	var stores []*ssa.Store
+	for _, b := range fi.Fn.Blocks {
+		for _, in := range b.Instrs {
+			if st, ok := in.(*ssa.Store); ok && isST(st.Val) && desc(st.Addr) == td {
+				if _, h := fi.GuardsOf(st)["EQ("+td+`,const:"S")`]; h {
+					stores = append(stores, st)
+				}
+			}
 		}
 	}
+	if len(stores) == 0 {
+		return T, false, "no store of \"ST\" into the attribute type guarded by Type == \"S\""
+	}
+	cut := fi.edgesMatching(func(l string, _ *ssa.If, _ bool) bool { return l == "NE("+td+`,const:"S")` })
+	for _, st := range stores {
+		cutInto(fi, st.Block(), cut)
+	}
+	if mu.Block() != attrLoop.Body && fi.reachHit([]state{{attrLoop.Body.Index, 0, -1}}, cut, blocksOf(mu)) {
+		return T, false, "the attribute store is reachable with Type == \"S\" without the rewrite to \"ST\""
+	}
+	return T, true, ""
+}
+
+func c04Verifier(c *Ctx, V *ssa.Function, S, P *ssa.Function) {
+	w := c.W
+	c.SeenFn(V.String())
+	certs, idents := c04Params(V)
 	if certs == nil || idents == nil {
 		c.Unk("verifier/params", "anchor: the certificate chain and identity list parameters", w.FnPos(V), "not found")
 		return
 	}
+	// (a) the certificate slice is read only at constant index 0 — here and in every module function it is handed to
+	// (a helper that receives the chain is held to the same rule on its parameter)
 	okIdx := true
 	n0 := 0
-	for _, r := range *certs.Referrers() {
-		c.Evals++
-		switch x := r.(type) {
-		case *ssa.IndexAddr:
-			if k, ok := x.Index.(*ssa.Const); ok && constString(k) == "0" {
-				n0++
-			} else {
-				okIdx = false
-			}
-		case *ssa.DebugRef:
-		case *ssa.Call:
-			if bi, ok := x.Call.Value.(*ssa.Builtin); !ok || bi.Name() != "len" {
-				okIdx = false
-			}
-		default:
-			if !onlyFormatted(r, 0) {
-				okIdx = false
-			}
-		}
-	}
-	c.Check(okIdx && n0 > 0, "verifier/leaf-only", "the certificate chain is read only at constant index 0 (never an intermediate's or root's subject)", w.FnPos(V), "the chain parameter is used other than as certs[0]")
-	// (c) argument order
-	pName := fnName(P)
-	leaf := "call:" + pName + "(call:(crypto/x509/pkix.Name).String(param:" + certs.Name() + "[const:0].Subject))#0"
-	a0, a1 := sCall.Call.Args[0], sCall.Call.Args[1]
-	c.Check(desc(a1) == leaf, "verifier/second-arg-leaf-subject", "argument order: the second (superset) argument of the subset test is the parsed subject of certs[0]", w.InstrPos(sCall), "second argument is "+desc(a1))
-	// first argument: element of a slice appended from P(Cut(identity)#1)#0
-	okA0 := false
-	var idSlice ssa.Value
-	if u, ok := a0.(*ssa.UnOp); ok && u.Op == token.MUL {
-		if ia, ok := u.X.(*ssa.IndexAddr); ok {
-			idSlice = ia.X
-		}
-	}
-	var appElems []string
-	if idSlice != nil {
-		for _, ci := range allCalls(V) {
-			call, ok := ci.(*ssa.Call)
-			if !ok {
-				continue
-			}
-			if bi, ok := call.Call.Value.(*ssa.Builtin); ok && bi.Name() == "append" && (fwdPhis(call)[idSlice] || call == idSlice) {
-				for _, el := range appendedElems(call.Call.Args[1]) {
-					appElems = append(appElems, desc(el))
+	var chainUses func(p *ssa.Parameter, depth int)
+	chainUses = func(p *ssa.Parameter, depth int) {
+		for _, r := range *p.Referrers() {
+			c.Evals++
+			switch x := r.(type) {
+			case *ssa.IndexAddr:
+				if k, ok := x.Index.(*ssa.Const); ok && constString(k) == "0" {
+					n0++
+				} else {
+					okIdx = false
+				}
+			case *ssa.DebugRef:
+			case *ssa.Call:
+				if bi, ok := x.Call.Value.(*ssa.Builtin); ok && bi.Name() == "len" {
+					continue
+				}
+				g := staticCallee(x)
+				if g != nil && g.Blocks != nil && w.IsProductFn(g) && g.Parent() == nil && depth < c04MaxDepth && len(g.Params) == len(x.Call.Args) {
+					for i, a := range x.Call.Args {
+						if a == ssa.Value(p) {
+							c.SeenFn(g.String())
+							chainUses(g.Params[i], depth+1)
+						}
+					}
+					continue
+				}
+				if !onlyFormatted(r, 0) {
+					okIdx = false
+				}
+			default:
+				if !onlyFormatted(r, 0) {
+					okIdx = false
 				}
 			}
 		}
-		okA0 = len(appElems) > 0
-		for _, d := range appElems {
-			if !(strings.HasPrefix(d, "call:"+pName+"(call:strings.Cut(param:"+idents.Name()+"[") && strings.HasSuffix(d, `,const:":")#1)#0`)) {
-				okA0 = false
+	}
+	chainUses(certs, 0)
+	c.Check(okIdx && n0 > 0, "verifier/leaf-only", "the certificate chain is read only at constant index 0 (never an intermediate's or root's subject)", w.FnPos(V), "the chain parameter is used other than as certs[0]")
+
+	// the subset tests of the verifier's call tree, each with the chain of calls that leads to it
+	pName := fnName(P)
+	xs, _ := w.constString("internal/trustpolicy", "X509Subject")
+	roles := newC04Roles(idents.Name(), xs, pName)
+	frames := c04Frames(w, V, map[*ssa.Function]bool{S: true, P: true})
+	type sSite struct {
+		f    *c04Frame
+		call *ssa.Call
+	}
+	var sites []sSite
+	for _, f := range frames {
+		if f.fn == S || f.fn == P {
+			continue
+		}
+		c.SeenFn(f.fn.String())
+		for _, ci := range allCalls(f.fn) {
+			if call, ok := ci.(*ssa.Call); ok && staticCallee(call) == S {
+				sites = append(sites, sSite{f, call})
 			}
 		}
 	}
-	c.Evals++
-	c.Check(okA0, "verifier/first-arg-identity", "argument order: the first (subset) argument is an element of the list built from ParseDN(value part of an identity of the identities parameter)", w.InstrPos(sCall),
-		fmt.Sprintf("first argument %s; list elements %v", desc(a0), appElems))
+	if len(sites) == 0 {
+		c.Unk("verifier/subset-test", "anchor: the subset test in the call tree of the identity verifier", w.FnPos(V), "not reached through static module calls")
+		return
+	}
+	// (c) argument order, decided for every subset test in the frame of the verifier: the arguments of a test that sits in
+	// a helper are the helper's parameters, i.e. what the verifier (or the helper above) passes at that call.
+	leafCall := "call:" + pName + "(call:(crypto/x509/pkix.Name).String(param:" + certs.Name() + "[const:0].Subject))"
+	leaf := leafCall + "#0"
+	type buildLoop struct {
+		f  *c04Frame
+		sl sliceLoop
+	}
+	var loops []buildLoop
+	for _, s := range sites {
+		a0, a1 := s.call.Call.Args[0], s.call.Call.Args[1]
+		c.Check(s.f.up(desc(a1)) == leaf, "verifier/second-arg-leaf-subject", "argument order: the second (superset) argument of the subset test is the parsed subject of certs[0]", w.InstrPos(s.call), "second argument is "+s.f.up(desc(a1)))
+		// first argument: every value that can be the map tested is result 0 of the DN parser applied to the value part of an
+		// identity of the identities parameter, parsed under the fact that the identity's kind is x509.subject
+		fl := &c04Flow{w: w, seen: map[c04FlowKey]bool{}}
+		fl.elem(s.f, a0)
+		okA0 := len(fl.origins) > 0 && len(fl.unknown) == 0
+		var shown []string
+		for _, o := range fl.origins {
+			c.Evals++
+			d := o.f.up(desc(o.v))
+			shown = append(shown, trunc(d, 160))
+			ex, isEx := o.v.(*ssa.Extract)
+			var pc *ssa.Call
+			if isEx && ex.Index == 0 {
+				pc, _ = ex.Tuple.(*ssa.Call)
+			}
+			if pc == nil || staticCallee(pc) != P {
+				okA0 = false
+				continue
+			}
+			arg := o.f.up(desc(pc.Call.Args[0]))
+			if !roles.value.MatchString(arg) {
+				okA0 = false
+				shown[len(shown)-1] += " [not the value part of an identity]"
+				continue
+			}
+			X := roles.identityOf(idents.Name(), arg)
+			isKind := false
+			for l := range o.f.guardsUp(w, pc) {
+				if roles.is.MatchString(l) && roles.identityOf(idents.Name(), l) == X {
+					isKind = true
+				}
+			}
+			if !isKind {
+				okA0 = false
+				shown[len(shown)-1] += " [parsed without the fact that the identity's kind is " + xs + "]"
+			}
+			// the loop over the identities in which this element is produced (around the parse, or around a call on the chain to it)
+			var in ssa.Instruction = pc
+			for g := o.f; g != nil; g = g.parent {
+				for _, sl := range sliceLoops(g.fn) {
+					if g.up(desc(sl.X)) != "param:"+idents.Name() || !loopBlocks(sl.Header)[in.Block().Index] {
+						continue
+					}
+					dup := false
+					for _, bl := range loops {
+						if bl.sl.Header == sl.Header {
+							dup = true
+						}
+					}
+					if !dup {
+						loops = append(loops, buildLoop{g, sl})
+					}
+				}
+				if g.call == nil {
+					break
+				}
+				in = g.call
+			}
+		}
+		c.Check(okA0, "verifier/first-arg-identity", "argument order: the first (subset) argument is an element of the list built from ParseDN(value part of an x509.subject identity of the identities parameter)", w.InstrPos(s.call),
+			fmt.Sprintf("first argument %s; values that reach it %v; not followed: %v", trunc(s.f.up(desc(a0)), 200), shown, fl.unknown))
+	}
+
 	// (b) success exits
 	s := w.Summarize(V, Mode{Kind: mErr})
 	c.Evals += s.States
@@ -363,8 +549,10 @@ func c04Verifier(c *Ctx, V *ssa.Function, sCall *ssa.Call, S, P *ssa.Function) {
 	okExits := len(s.Exits) > 0
 	nSubset := 0
 	for _, ex := range s.Exits {
-		_, isWild := hasLabel(ex.Checked, "T(call:slices.Contains(param:"+idents.Name()+fmt.Sprintf(",const:%q))", wc))
-		_, isSub := hasLabel(ex.Checked, "T(call:"+fnName(S)+"(")
+		// whole labels, never a part of one: `OR(x, T(call:subset(..)))` (a flag that is true for another reason as well) is not
+		// the fact that the subset test answered true
+		isWild := labelHas(ex.Checked, "T(call:slices.Contains(param:"+idents.Name()+fmt.Sprintf(",const:%q))", wc))
+		isSub := c04HasLabel(ex.Checked, "T(call:"+fnName(S)+"(", ")")
 		if isWild && !isSub {
 			// the lone wildcard accepts every subject: nothing else may gate this exit
 			var extra []string
@@ -379,11 +567,8 @@ func c04Verifier(c *Ctx, V *ssa.Function, sCall *ssa.Call, S, P *ssa.Function) {
 		}
 		if isSub {
 			nSubset++
-			_, e1 := hasLabel(ex.Checked, "EQ(call:"+pName+"(call:(crypto/x509/pkix.Name).String(", "#err,nil)")
-			_, e2 := hasLabel(ex.Checked, "NE(len(", "),const:0)")
-			if !e2 {
-				_, e2 = hasLabel(ex.Checked, "GT(len(", "),const:0)")
-			}
+			e1 := labelHas(ex.Checked, "EQ("+leafCall+"#err,nil)")
+			e2 := c04HasLabel(ex.Checked, "NE(len(", "),const:0)") || c04HasLabel(ex.Checked, "GT(len(", "),const:0)")
 			if !e1 || !e2 {
 				okExits = false
 				c.Bad("verifier/success-exits", "success exits: wildcard membership, or a true subset test after the leaf subject parsed and at least one x509 identity exists", w.InstrPos(ex.Ret),
@@ -401,35 +586,34 @@ func c04Verifier(c *Ctx, V *ssa.Function, sCall *ssa.Call, S, P *ssa.Function) {
 	} else if nSubset == 0 {
 		c.Bad("verifier/success-exits", "success exits: wildcard membership, or a true subset test after the leaf subject parsed and at least one x509 identity exists", w.FnPos(V), "no success exit through the subset test")
 	}
-	// identity loop gates
-	var idLoop *sliceLoop
-	for _, sl := range sliceLoops(V) {
-		sl := sl
-		if desc(sl.X) == "param:"+idents.Name() {
-			idLoop = &sl
-		}
-	}
-	if idLoop == nil {
-		c.Unk("verifier/identity-loop", "anchor: the loop over the identities parameter", w.FnPos(V), "not found")
+
+	// identity loop gates: an iteration of the loop that builds the list ends without failure only through the gate, or
+	// through the fact that the identity is of another kind. The loop may sit in the verifier or in a helper that is handed
+	// the identities; a gate may sit in a helper called from the loop body (its success edge then is the gate, see c04Cut).
+	if len(loops) == 0 {
+		c.Unk("verifier/identity-loop", "anchor: the loop over the identities parameter in which the identity list is built", w.FnPos(V), "not found")
 		return
 	}
-	xs, _ := w.constString("internal/trustpolicy", "X509Subject")
-	labels, ok := fi.mustPassBetween([]int{idLoop.Body.Index}, map[int]bool{idLoop.Header.Index: true})
-	_, hSep := hasLabel(labels, "T(call:strings.Cut(param:"+idents.Name()+"[", `,const:":")#2)`)
-	c.Evals++
-	c.Check(ok && hSep, "verifier/missing-separator", "per-identity gate: an identity without ':' fails verification", w.InstrPos(blockTerm(idLoop.Header)), "facts: "+summarizeLabels(labels, 6))
-	isOther := func(l string) bool {
-		return strings.HasPrefix(l, "NE(call:strings.Cut(param:"+idents.Name()+"[") && strings.HasSuffix(l, fmt.Sprintf(`,const:":")#0,const:%q)`, xs))
+	for _, bl := range loops {
+		fi := w.Info(bl.f.fn)
+		site := w.InstrPos(blockTerm(bl.sl.Header))
+		hdr := map[int]bool{bl.sl.Header.Index: true}
+		start := []state{{bl.sl.Body.Index, 0, -1}}
+		blocked := func(res ...*regexp.Regexp) bool {
+			c.Evals++
+			cut := c04Cut(w, bl.f, func(l string) bool {
+				for _, re := range res {
+					if re.MatchString(l) {
+						return true
+					}
+				}
+				return false
+			})
+			return !fi.reachHit(start, cut, hdr)
+		}
+		labels, _ := fi.mustPassBetween([]int{bl.sl.Body.Index}, hdr)
+		c.Check(blocked(roles.sep), "verifier/missing-separator", "per-identity gate: an identity without ':' fails verification", site, "an iteration completes without the separator test; facts: "+summarizeLabels(labels, 6))
+		c.Check(blocked(roles.other, roles.nonEmpty), "verifier/empty-value", "per-identity gate: an x509.subject identity with an empty value fails verification", site, "an empty x509.subject value is skipped")
+		c.Check(blocked(roles.other, roles.parsed), "verifier/identity-parse-error", "per-identity gate: an x509.subject identity that does not parse fails verification (it is never skipped)", site, "an unparsable identity is skipped")
 	}
-	hdr := map[int]bool{idLoop.Header.Index: true}
-	start := []state{{idLoop.Body.Index, 0, -1}}
-	cutE := fi.edgesMatching(func(l string, _ *ssa.If, _ bool) bool {
-		return isOther(l) || (strings.HasPrefix(l, "NE(call:strings.Cut(param:"+idents.Name()+"[") && strings.HasSuffix(l, `,const:":")#1,const:"")`))
-	})
-	c.Check(!fi.reachHit(start, cutE, hdr), "verifier/empty-value", "per-identity gate: an x509.subject identity with an empty value fails verification", w.InstrPos(blockTerm(idLoop.Header)), "an empty x509.subject value is skipped")
-	cutP := fi.edgesMatching(func(l string, _ *ssa.If, _ bool) bool {
-		return isOther(l) || (strings.HasPrefix(l, "EQ(call:"+pName+"(call:strings.Cut(param:"+idents.Name()+"[") && strings.HasSuffix(l, "#err,nil)"))
-	})
-	c.Check(!fi.reachHit(start, cutP, hdr), "verifier/identity-parse-error", "per-identity gate: an x509.subject identity that does not parse fails verification (it is never skipped)", w.InstrPos(blockTerm(idLoop.Header)), "an unparsable identity is skipped")
-	c.Evals += 2
 }
